@@ -344,5 +344,5 @@ def explain(case, obs):
                 "c08_period_restart_only_after_expiry)")
     return ("observed AllowN decisions contradict C08.Exec.spec_ok: a request for n tokens must be granted iff the bucket "
             "(capacity burst, rate tokens per caller second; the in-process bucket while Redis fails) holds n tokens, and "
-            "admitted events between two seconds s and s+t must not exceed burst + rate*t (c08_grant_iff / "
+            "events granted between two seconds s and s+t must not exceed burst + rate*t (c08_grant_iff / "
             "c08_token_bound / c08_fallback)")
